@@ -22,16 +22,23 @@ claim('C10',
       "Unbounded proof of the eight mpn logic functions and mpn_com (pointwise at an arbitrary ghost limb, every permitted overlap) and of "
       "mpn_scan0/scan1 (first 0/1 bit at or after the start, all earlier bits have the other value, at a ghost bit position). mpz_tstbit, mpz_scan0, "
       "mpz_scan1 against the infinite two's-complement limb function (ghost lowest-non-zero-limb index), incl. the 'no such bit' answers; mpz_com "
-      "as ~x = -x-1 on limb chains, all alias partitions.",
+      "as ~x = -x-1 on limb chains, all alias partitions. mpz_setbit and mpz_clrbit (all signs, all sizes, bit index below, at and beyond the operand, growth by a limb, "
+      "normalisation): every limb of the result equals the CLOSED FORM of the two's-complement definition - for d < 0, |d'| = ((|d|-1) with the bit cleared/set) + 1, whose "
+      "borrow and carry are functions of the ghost lowest-non-zero-limb index (clrbit at that limb: carry chain with ghost carries, a carry out of the top limb becomes a new limb 1). "
+      "mpz_combit in two partitions (d >= 0; d < 0 with the bit inside the low zero limbs: borrow chain). BOUNDED stand-ins (complete enumeration of 431 small operands, not proof): "
+      "mpz_and/ior/xor for all operand pairs and alias modes, setbit/clrbit/combit x 19 bit indices.",
       TB + "NOT decided: the value returned by mpn_popcount/mpn_hamdist (SWAR adder tree: SAT time-out; only their memory safety, frame and "
-      "termination are proved); mpz_and/ior/xor/setbit/clrbit/combit/popcount/hamdist: no unit. The ghost g_lz of the mpz units is defined by a "
+      "termination are proved); mpz_and/ior/xor: bounded enumeration only (the proof units of mpz_xor for mixed signs ran out of memory, DESIGN 11.3); mpz_combit for d < 0 with the bit at or above the "
+      "lowest non-zero limb: bounded enumeration only; in mpz_combit the length argument of the in-place mpn_sub_1 call is read as dsize - limb_index (stated rewrite, listed in the evidence); "
+      "mpz_popcount/hamdist: no unit. The ghost g_lz of the mpz units is defined by a "
       "forall that is instantiated by woven assumes at the limbs each loop iteration reads (listed in the evidence).")
 claim('C11',
       "Full-domain proofs (loop-free code, all 2^64 limb values, all sizes and allocations) that mpz_cmp_ui/_si, mpz_cmpabs_ui, the eight "
       "mpz_fits_*_p, mpz_get_ui/si/ux/sx and mpz_set_ui/si/ux/sx agree with exact 128-bit arithmetic (predicates true exactly on the "
-      "representable range); mpz_cmp/mpz_cmpabs/mpn_cmp: sign decided by sizes, else by the highest differing limb (loop closed by invariant).",
+      "representable range); mpz_cmp/mpz_cmpabs/mpn_cmp: sign decided by sizes, else by the highest differing limb (loop closed by invariant). "
+      "mpf_cmp (sign of the exact difference at the highest differing limb after exponent alignment), mpf_cmp_ui, mpf_cmp_si, the six mpf_fits_*_p, mpf_get_ui/si, mpf_set_ui/si: the same full-domain statements on the mpf format.",
       TB + "Four units are proved under two's-complement wrap-around of '-LONG_MIN' (signed-overflow check off, listed in evidence). "
-      "NOT covered: every double conversion (mpz_get_d, mpz_set_d, mpz_cmp_d, mpq_get_d, mpf_get_d, mpf_cmp_d), mpq_cmp*, mpq_equal, mpf_cmp_si, mpz_sgn (a macro).")
+      "NOT covered: every double conversion (mpz_get_d, mpz_set_d, mpz_cmp_d, mpq_get_d, mpf_get_d, mpf_cmp_d), mpq_cmp*, mpz_sgn (a macro); mpq_equal is proved under C12.")
 claim('C12',
       "Unbounded limb-exact proofs of mpq_inv (incl. dest==src pointer swap, sign moved to the numerator, DIVIDE_BY_ZERO exactly for 0), "
       "mpq_neg, mpq_abs, mpq_set, mpq_set_z, mpq_set_ui/si, mpq_set_num/den, mpq_get_num/den, mpq_swap: parts copied limb for limb, "
@@ -84,9 +91,10 @@ claim('C02',
       "condition holds), DIVIDE_BY_ZERO iff d == 0, over an ASSUMED mpn_mod_1. mpz_{t,f,c}div_q_ui and _qr_ui (all alias partitions) over an ASSUMED mpn_divrem_1: "
       "the adjustment |q| = |q_trunc| + 1 is PROVED on the limbs (MPN_INCR_U loop: trailing all-ones limbs become 0, the next limb is incremented, the rest unchanged), "
       "applied exactly when r != 0 and the sign condition holds; quotient size and sign, remainder sign, return value |r|. mpz_divisible_2exp_p: 1 exactly when the low d bits of |a| are "
-      "zero (witness limb for the answer 0), only 0 divisible when d reaches past the top limb.",
+      "zero (witness limb for the answer 0), only 0 divisible when d reaches past the top limb. BOUNDED stand-in (complete enumeration of 431 small operands x 19 shift counts x aliasing, not proof): "
+      "mpz_{t,f,c}div_{q,r}_2exp satisfy u == q*2^cnt + r with the remainder range of the rounding mode.",
       TB + "In the floor/ceiling glue mpz_tdiv_qr/q/r are ASSUMED (uninterpreted quotient/remainder with sgn r in {0, sgn n}, |r| < |d|); values are 64-bit tokens for the interpreted "
-      "+/- steps. NOT covered: the quotient/remainder VALUES of the truncating family (mpn_tdiv_qr is assumed), all _2exp forms, mpn_tdiv_qr/divrem/divrem_1/mod_1, divexact, divisible_p/_ui_p, congruent_*, "
+      "+/- steps. NOT covered: the quotient/remainder VALUES of the truncating family (mpn_tdiv_qr is assumed), the _2exp forms beyond the bounded enumeration, mpn_tdiv_qr/divrem/divrem_1/mod_1, divexact, divisible_p/_ui_p, congruent_*, "
       "and the word-division primitives (undecided by SAT, DESIGN 8).", technique='contract-based glue proof against assumed callee contracts (value tokens, CBMC)')
 claim('C17',
       "mpz_inp_raw: for EVERY 4-byte header the body region lies inside the (re)allocated block (no out-of-bounds write for any byte stream), the header "
